@@ -129,7 +129,7 @@ def bijective(t):
 def run(prop, seed, budget, ctx):
     from apischema import deserialize, serialize, ValidationError
     rnd = random.Random(seed * 31 + sum(map(ord, prop))); pool = Pool(); g = Gen(rnd, pool, None)
-    g.kinds = g.kinds + ["sequence", "aggregate", "tuple_union"]
+    g.kinds = g.kinds + ["sequence", "aggregate", "tuple_union", "reqopt", "optenum1"]
     types = [g.ty(3) for _ in range(300 * budget)]
     mod = build_module(pool.source(), f"{prop}_{seed}"); ns = dict(vars(mod))
     reqs, meta, failures, hist, distinct, samples = [], [], [], collections.Counter(), set(), []
